@@ -883,7 +883,8 @@ class StubsStringGenerator:
                 )
                 superclass_methods_text += f"\n{class_string}\n"
 
-        already_defined_names = already_defined_names.union(existing_names)
+        # In place, so that the other private superclasses of the same subclass see these members too
+        already_defined_names.update(existing_names)
 
         for superclass_superclass in superclass_class.superclasses:
             name = superclass_superclass.split(".")[-1]
